@@ -286,12 +286,26 @@ def case_match(ctx, inp):
             n_old = sum(len(y[0]) for y in old[1])
             if n_old > len(real) and len(expected) == len(real):
                 ctx.branch("old-code-unsound-candidate")
-    # rewrite, both strategies
-    for strat in ("top_level", "bottom_up"):
+    # ground rules (no variable in the lhs): the empty substitution {} is a valid match
+    for i, env, _o in real:
+        if not _var_occ(rules[i]):
+            ctx.branch("ground-rule-yielded-with-empty-bindings")
+            if env != {}:
+                ctx.fail("a rule without variables was yielded with non-empty bindings", observed=[i, env])
+    # rewrite: both strategies, the default (= bottom_up, documented), an unknown name (KeyError)
+    for strat in ("top_level", "bottom_up", None, "no_such_strategy"):
         try:
-            res_py = rs.rewrite(tp, strategy=strat)
+            res_py = rs.rewrite(tp) if strat is None else rs.rewrite(tp, strategy=strat)
+        except KeyError:
+            ctx.eq(f"rewrite({strat})", ctx.lean(Sym("rw-rewrite"), wr, wire(term), strat), [Sym("KeyError")])
+            if strat != "no_such_strategy":
+                ctx.fail(f"rewrite(strategy={strat!r}) raised KeyError for a documented strategy")
+            continue
         except Exception as e:  # noqa: BLE001
             ctx.fail(f"rewrite({strat}) raised", observed=f"{type(e).__name__}: {e}")
+            continue
+        if strat == "no_such_strategy":
+            ctx.fail("rewrite with an unknown strategy name did not raise KeyError", observed=repr(res_py)[:200])
             continue
         if _py_size(res_py, 1500) > 1500:
             # a rule with a bare-variable lhs and a duplicating rhs makes bottom-up rewriting blow up exponentially
@@ -299,8 +313,19 @@ def case_match(ctx, inp):
             ctx.branch("rewrite-result-too-large-skipped")
             continue
         res = from_py(res_py)
-        m = ctx.lean(Sym("rw-rewrite"), wr, wire(term), Sym(strat))
+        m = ctx.lean(Sym("rw-rewrite"), wr, wire(term), strat)
         ctx.eq(f"rewrite({strat})", m if m[0] != "ok" else unwire(m[1]), res)
+        if strat in (None, "bottom_up"):
+            # structure of the strategy, independent of the model: arguments first, then one top-level rewrite
+            ref = _bottom_up_reference(rs, tp)
+            if ref != res_py:
+                ctx.fail("bottom-up rewriting is not 'rewrite the arguments, then rewrite the rebuilt term at top level'",
+                         observed=res, expected=from_py(ref) if _py_size(ref, 1500) <= 1500 else "large")
+            if _normal_form(rules, term):
+                ctx.branch("bottom-up-normal-form")
+                if res != term:
+                    ctx.fail("bottom-up rewriting changed a term in which no rule matches at any position",
+                             observed=res, expected=term)
         if strat == "top_level":
             if real:
                 i, env, _ = real[0]
@@ -313,6 +338,26 @@ def case_match(ctx, inp):
                 ctx.fail("top-level rewrite changed a term that no rule matches", observed=res, expected=term)
         elif res != term:
             ctx.branch("bottom-up-rewrote")
+
+
+def _bottom_up_reference(rs, t):
+    from dask.core import istask
+    if istask(t):
+        t = (t[0],) + tuple(_bottom_up_reference(rs, a) for a in t[1:])
+    elif isinstance(t, list):
+        t = [_bottom_up_reference(rs, a) for a in t]
+    return rs._rewrite(t)
+
+
+def _normal_form(rules, t):
+    """brute force: no rule matches t or any subterm of t"""
+    if any(bf_match(r["lhs"], t, set(r["vars"]), {}) is not None for r in rules):
+        return False
+    if t[0] == "app":
+        return all(_normal_form(rules, a) for a in t[2])
+    if t[0] == "lst":
+        return all(_normal_form(rules, a) for a in t[1])
+    return True
 
 
 def _py_size(x, cap):
@@ -436,7 +481,8 @@ def gen_term(rng, depth, funcs_n=3, vars_p=0.0, dict_p=0.0, fixed_arity=None):
 
 
 def gen_rule(rng, fixed_arity=None):
-    lhs = gen_term(rng, rng.choice([1, 2, 2, 3]), vars_p=0.45, fixed_arity=fixed_arity)
+    # one rule in six is ground (no variable in its lhs): it matches with the empty substitution
+    lhs = gen_term(rng, rng.choice([1, 2, 2, 3]), vars_p=0.45 if rng.random() < 0.84 else 0.0, fixed_arity=fixed_arity)
     if lhs[0] == "c" and rng.random() < 0.8:
         lhs = ["app", rng.randint(1, 3), [lhs]]
     used = sorted(set(_var_occ({"lhs": lhs, "vars": VARS})))
@@ -486,6 +532,16 @@ def generate(ctx):
                     "term": ["app", 1, [c(101), c(1)]]}
     yield "match", {"rules": [{"lhs": ["app", 0, [c(100)]], "rhs": ["app", 3, [c(100)]], "vars": [100]}], "term": ["lst", [c(7)]]}
     yield "match", {"rules": [{"lhs": ["app", 1, [["app", 2, []]]], "rhs": c(1), "vars": []}], "term": ["app", 1, [["f", 2]]]}
+    # ground rules: `vars` omitted ("If there are no variables, this can be omitted"); alone, next to a more general
+    # rule with variables (which must not shadow it), declared variables that do not occur in the lhs
+    g0 = {"lhs": ["app", 1, [c(0), c(0)]], "rhs": c(0), "vars": []}
+    yield "match", {"rules": [g0], "term": ["app", 1, [c(0), c(0)]]}
+    yield "match", {"rules": [g0, {"lhs": ["app", 1, [c(100), c(101)]], "rhs": c(100), "vars": [100, 101]}],
+                    "term": ["app", 1, [c(0), c(0)]]}
+    yield "match", {"rules": [{"lhs": ["app", 1, [c(100), c(101)]], "rhs": c(100), "vars": [100, 101]}, g0],
+                    "term": ["app", 2, [["app", 1, [c(0), c(0)]], ["app", 1, [c(0), c(1)]]]]}
+    yield "match", {"rules": [{"lhs": c(7), "rhs": ["app", 3, []], "vars": [100]}], "term": c(7)}
+    yield "match", {"rules": [{"lhs": ["lst", [c(1), ["lst", []]]], "rhs": c(2), "vars": [101]}], "term": ["lst", [c(1), ["lst", []]]]}
     # the pinned test-suite's rule set
     t_rules = [{"lhs": ["app", 1, [c(100), c(1)]], "rhs": ["app", 2, [c(100)]], "vars": [100, 101, 102]},
                {"lhs": ["app", 1, [c(100), c(100)]], "rhs": ["app", 3, [c(100)]], "vars": [100, 101, 102]},
